@@ -476,6 +476,8 @@ class Concatenator(Group):  # pylint: disable=too-many-public-methods
                 continue
 
             self.remove_entity(child)
+            if child in self._children:
+                self._children.remove(child)
 
     def remove_entity(self, entity: Concatenated | ConcatenatedPropertyGroup):
         """Remove a concatenated entity."""
